@@ -62,9 +62,11 @@ def gen_case(rng, max_cells=40, max_mag=8, max_events=120, zero_frac=None, rate_
     magoff = rng.uniform(0.1, 0.9, n_ev)
     top = (ev_mag == nmag - 1) & (rng.uniform(size=n_ev) < 0.5)
     magoff = numpy.where(top, rng.uniform(1.5, 25.0, n_ev), magoff)      # the last bin is open-ended: magnitudes far above the last edge
+    on_edge = (~top) & (numpy.arange(n_ev) % 7 == 3)
+    magoff = numpy.where(on_edge, 0.0, magoff)                           # exactly ON the bin's lower edge (it belongs to that bin), incl. the minimum magnitude
     case = {
-        "nx": nx, "ny": ny, "dh": str(rng.choice(["0.1", "0.5", "0.25", "1"])),
-        "ax": str(rng.choice(["-125.4", "10", "0", "165.7", "-0.5"])), "ay": str(rng.choice(["31.5", "-47.9", "0", "-0.5", "40"])),
+        "nx": nx, "ny": ny, "dh": str(rng.choice(["0.1", "0.5", "0.25", "1", "0.05"])),
+        "ax": str(rng.choice(["-125.4", "10", "0", "165.7", "-0.5", "4.35", "-163.7"])), "ay": str(rng.choice(["31.5", "-47.9", "0", "-0.5", "40", "40.05", "8.45"])),
         "mag0": str(rng.choice(["4.95", "5.0", "2.5", "5.95"])), "dmag": str(rng.choice(["0.1", "0.2", "0.5"])), "nmag": nmag,
         "rates": rates.tolist(), "ev_cell": ev_cell.tolist(), "ev_mag": ev_mag.tolist(),
         "frac": rng.uniform(0.15, 0.85, (n_ev, 2)).tolist(), "magoff": magoff.tolist(),
